@@ -130,6 +130,20 @@ ADHOC_INFO = {
 }
 ADHOC_REQUIRES = {"C7o": ["F7o"], "C13r": ["F13r"]}
 
+# user-defined ciphersuites: subclasses of the library's suites with their own tags
+# (and one deriving from another user suite); defined like ad-hoc field classes
+USER_SUITES = [
+    {"name": "US1", "base": "suite.G2Basic",
+     "attrs": {"DST": ["bytes", b"USER_SUITE_ONE_BLS12381G2_XMD:SHA-256_SSWU_RO_NUL_".hex()]}},
+    {"name": "US2", "base": "suite.G2ProofOfPossession",
+     "attrs": {"DST": ["bytes", b"USER_SUITE_TWO_BLS12381G2_XMD:SHA-256_SSWU_RO_POP_".hex()],
+               "POP_TAG": ["bytes", b"USER_POP_TWO_BLS12381G2_XMD:SHA-256_SSWU_RO_POP_".hex()]}},
+    {"name": "US3", "base": "adhoc.US1",
+     "attrs": {"DST": ["bytes", b"USER_SUITE_THREE_BLS12381G2_XMD:SHA-256_SSWU_RO_NUL_".hex()]}},
+    {"name": "US4", "base": "suite.G2Basic",
+     "attrs": {"xmd_hash_function": ["builtin", "_hashlib", "openssl_sha512"]}},
+]
+
 # dynamic families: classes that are defined and dropped *inside* a history
 # (pseudo-ops defclass / dropclass); their primes and modulus coefficients are
 # drawn per run, so only the names and the base kind are fixed here
@@ -797,7 +811,8 @@ class Gen:
         if ty.startswith("scalar:"):
             return lit(self.lit_scalar(ty[7:]))
         if ty == "scalar16":
-            return lit(r.choice([0, 1, 2, 3, 5, 17, 255, 65537, r.getrandbits(16)]))
+            return lit(r.choice([0, 1, 2, 3, 5, 17, 255, 65537, r.getrandbits(16),
+                                 ["bool", 1]]))
         if ty == "secp:scalar":
             return lit(r.choice([0, 1, 2, 3, SECP_N - 1, SECP_N, SECP_N + 1, -1, -5,
                                  r.getrandbits(256), r.getrandbits(512), r.getrandbits(64)]))
@@ -903,9 +918,26 @@ class Gen:
         if x < 0.88:
             return lit(r.choice(SKS))
         return lit(r.choice([0, BLS_R, BLS_R + 1, -1, 2**255, ["str", "hello"], B(b"\x01"),
-                             r.getrandbits(254) + 1]))
+                             r.getrandbits(254) + 1,
+                             # number-likes that compare equal to a pool key but are no ints
+                             ["float", "1.0"], ["float", "42.0"], ["float", "42.0"],
+                             ["bool", 1]]))
 
     def arg_bytes(self, b, ty):
+        """bytes-typed argument; now and then the same bytes as a bytearray or a
+        memoryview (what callers holding buffers pass)"""
+        a = self._arg_bytes(b, ty)
+        r = self.rng
+        c = a.get("lit")
+        if isinstance(c, list) and len(c) == 2 and c[0] == "bytes" and not self.distinct:
+            x = r.random()
+            if x < 0.07:
+                return lit(["bytearray", c[1]])
+            if x < 0.10:
+                return lit(["memoryview", c[1]])
+        return a
+
+    def _arg_bytes(self, b, ty):
         r = self.rng
         kind = ty[2:]
         regs = b.avail(ty)
@@ -1299,7 +1331,16 @@ class Scenarios(Gen):
         self.nreg = 0
         r = self.rng
         knobs = {"gc": "enabled" if r.random() < 0.25 else "disabled",
-                 "recursion_limit_after_import": 3000 if r.random() < 0.12 else None}
+                 # (an application may put the limit back to CPython's default of 1000)
+                 "recursion_limit_after_import": r.choice([3000, 1500, 1000])
+                 if r.random() < 0.15 else None}
+        names = getattr(self.S, "env_names", None) or []
+        if names and r.random() < 0.35:
+            # ambient inputs: environment variables the sources mention, set by the caller
+            knobs["env"] = {n: r.choice(["1", "0", "true", ""]) for n in
+                            r.sample(names, r.randint(1, len(names)))}
+        if r.random() < 0.06:
+            knobs["cwd"] = "/"
         return {"format": 1, "property": "C20", "scenario": scenario, "adhoc_classes": [],
                 "knobs": knobs, "prelude": [], "tasks": [],
                 "schedule": {"first": 0, "switches": [], "at_op_boundaries": []},
@@ -1492,6 +1533,72 @@ class Scenarios(Gen):
             self.plan_faults(spec, nf=r.choice([1, 2]), include_prelude=False)
         return spec
 
+    def owned_args(self, b, tpl, op1):
+        """the caller's own mutable objects around a call (first-use scenario):
+        * a result that is a mutable container and is not kept: the caller modifies
+          what it was handed, then makes the same call again;
+        * a bytes argument passed as the caller's bytearray buffer, which the caller
+          overwrites for the next call (same object, new contents);
+        * a list argument the caller keeps, extends / shortens and passes again."""
+        r = self.rng
+        if tpl.cost > 400:
+            return
+
+        def clone(args=None, out=True):
+            c = dict(op1)
+            if args is not None:
+                c["args"] = args
+            if "out" in c:
+                if out:
+                    c["out"] = b.new_reg(tpl.out)
+                else:
+                    del c["out"]
+            return c
+        # (1) caller modifies the container it received
+        b.ops.append(clone(out=False))
+        b.ops.append({"pseudo": "mutate_last", "how": r.choice(["pop", "clear", "reverse"])})
+        b.ops.append(clone())
+        args1 = op1.get("args") or []
+        # (2) bytes argument as a reused bytearray buffer
+        bpos = [p for p, a in enumerate(args1) if isinstance(a.get("lit"), list) and
+                len(a["lit"]) == 2 and a["lit"][0] == "bytes" and a["lit"][1]]
+        for pos in (bpos if tpl.cost <= 30 else bpos[:1] if tpl.cost <= 150 else [])[:3]:
+            hx = args1[pos]["lit"][1]
+            raw = bytearray(bytes.fromhex(hx))
+            new = bytearray(raw)
+            if r.random() < 0.5:
+                new[r.randrange(len(new))] ^= 0x55
+            else:
+                new = bytearray(r.getrandbits(8) for _ in range(len(raw)))
+            reg = self.fresh_reg()
+            b.ops.append({"pseudo": "mk", "out": reg, "value": ["bytearray", hx]})
+            a2 = list(args1)
+            a2[pos] = {"reg": reg}
+            b.ops.append(clone(a2))
+            b.ops.append({"pseudo": "mutate_reg", "reg": reg, "how": "set",
+                          "payload": bytes(new).hex()})
+            b.ops.append(clone(a2))
+            a3 = list(args1)
+            a3[pos] = lit(["bytes", bytes(new).hex()])      # immutable bytes, same contents
+            b.ops.append(clone(a3))
+        # (3) a list argument the caller keeps and changes
+        lpos = [p for p, a in enumerate(args1) if isinstance(a.get("list"), list) and a["list"]
+                and all("lit" in x for x in a["list"])]
+        if lpos and tpl.cost <= 600:
+            pos = r.choice(lpos)
+            items = [x["lit"] for x in args1[pos]["list"]]
+            reg = self.fresh_reg()
+            b.ops.append({"pseudo": "mk", "out": reg, "value": ["list", items]})
+            a2 = list(args1)
+            a2[pos] = {"reg": reg}
+            b.ops.append(clone(a2))
+            how = r.choice(["append", "pop", "reverse"]) if len(items) > 1 else "append"
+            m = {"pseudo": "mutate_reg", "reg": reg, "how": how}
+            if how == "append":
+                m["payload"] = r.choice(items)
+            b.ops.append(m)
+            b.ops.append(clone(a2))
+
     def scn_pairkind(self, tf, tg, faults=False):
         """two callers running *different* operations of the same module / class
         family at the same time (one temporarily changes what the other reads)"""
@@ -1609,6 +1716,7 @@ class Scenarios(Gen):
                 if "out" in last:
                     last["out"] = b.new_reg(tpl.out)
                 b.ops.append(last)
+        self.owned_args(b, tpl, op1)
         if r.random() < 0.5:
             b.ops.append({"pseudo": "check", "full": True})
         two = r.random() < 0.4
@@ -1795,6 +1903,78 @@ class Scenarios(Gen):
             spec["tasks"] = [flat]
         if faults:
             self.plan_faults(spec, nf=r.choice([1, 2]), include_prelude=False)
+        return spec
+
+    def scn_usersuites(self, faults=False):
+        """user-defined ciphersuite subclasses (own DST / POP_TAG / hash function, one
+        deriving from another user suite) used next to the library's suites on the
+        same keys and messages, in a seeded order: every signature must verify in
+        its own suite only, and equal calls must agree with the history-free model"""
+        r = self.rng
+        spec = self.new_spec("usersuites")
+        spec["adhoc_classes"] += [dict(u) for u in USER_SUITES]
+        i = r.randrange(len(SKS))
+        pk = self.pool_pk(i)
+        j = r.randrange(3)
+        m = lit(B(MSGS[j]))
+        sk = lit(SKS[i])
+        names = ["suite.G2Basic", "suite.G2ProofOfPossession", "adhoc.US1", "adhoc.US2",
+                 "adhoc.US3", "adhoc.US4"]
+        if r.random() < 0.3:
+            names.append("suite.G2MessageAugmentation")
+        r.shuffle(names)
+        names = names[: r.randint(3, len(names))]
+        if not any(n.startswith("adhoc.") for n in names):
+            names[0] = "adhoc.US3"
+        ops = []
+        sigreg = {}
+        for n in names:
+            o = {"fn": ["c", n, "Sign"], "args": [sk, m], "kind": "usersuite.Sign",
+                 "out": self.fresh_reg()}
+            sigreg[n] = o["out"]
+            ops.append(o)
+            if r.random() < 0.4:
+                ops.append({"fn": ["c", n, "SkToPk"], "args": [sk], "kind": "usersuite.SkToPk",
+                            "out": self.fresh_reg()})
+            if r.random() < 0.3:
+                ops.append({"fn": ["c", n, "KeyGen"], "args": [lit(B(b"ikm-1" * 8))],
+                            "kind": "usersuite.KeyGen", "out": self.fresh_reg()})
+        if pk is not None:
+            checks = []
+            for n in names:
+                checks.append({"fn": ["c", n, "Verify"],
+                               "args": [lit(pk), m, {"reg": sigreg[n]}],
+                               "kind": "usersuite.Verify"})
+                if r.random() < 0.5:
+                    other = r.choice([x for x in names if x != n] or [n])
+                    checks.append({"fn": ["c", n, "Verify"],
+                                   "args": [lit(pk), m, {"reg": sigreg[other]}],
+                                   "kind": "usersuite.Verify"})
+            r.shuffle(checks)
+            ops += checks[: r.randint(2, 5)]
+        for n in names:
+            if n in ("suite.G2ProofOfPossession", "adhoc.US2") and r.random() < 0.6:
+                pr = self.fresh_reg()
+                ops.append({"fn": ["c", n, "PopProve"], "args": [sk], "kind": "usersuite.PopProve",
+                            "out": pr})
+                if pk is not None:
+                    ops.append({"fn": ["c", n, "PopVerify"], "args": [lit(pk), {"reg": pr}],
+                                "kind": "usersuite.PopVerify"})
+        # the first Sign calls once more at the end
+        for o in list(ops[:2]):
+            if o["kind"] == "usersuite.Sign":
+                again = dict(o)
+                again["out"] = self.fresh_reg()
+                ops.append(again)
+        if r.random() < 0.3 and len(ops) > 6:
+            cut = len(ops) // 2
+            # consumers of a signature register must stay behind its producer
+            spec["prelude"] = ops[:cut]
+            spec["tasks"] = [ops[cut:]]
+        else:
+            spec["tasks"] = [ops]
+        if faults:
+            self.plan_faults(spec, nf=1, include_prelude=False)
         return spec
 
     def scn_sharedvals(self, faults=False):
@@ -2115,7 +2295,8 @@ class ColdScenarios(Scenarios):
         r = self.rng
         spec = self.new_spec(name)
         spec["monitor"] = "global"
-        spec["knobs"] = {"gc": "disabled", "recursion_limit_after_import": None}
+        spec["knobs"] = {"gc": "disabled", "recursion_limit_after_import": None,
+                         **({"env": spec["knobs"]["env"]} if "env" in spec["knobs"] else {})}
         spec["server"] = {"mode": "cold", "import_order": list(order),
                           "hashseed": r.randrange(1, 2**32 - 1),
                           "flags": flags if flags is not None else
